@@ -15,6 +15,15 @@ reference cannot give it a C++ meaning, e.g. an unknown type name).
 """
 
 
+def cxx_integer(text):
+    """value of a C++ integer literal made of digits: a leading 0 makes it octal"""
+    if len(text) > 1 and text[0] == "0":
+        if any(c in "89" for c in text):
+            raise RefReject("syntax:literal", "digit 8 or 9 in the octal literal %s" % text)
+        return int(text, 8)
+    return int(text)
+
+
 class RefReject(Exception):
     def __init__(self, category, msg):
         Exception.__init__(self, "%s: %s" % (category, msg))
@@ -494,7 +503,7 @@ class Reader(object):
             return float(v)
         if t == "INTEGER":
             self.adv()
-            return int(v)
+            return cxx_integer(v)
         if t in ("DQUOTE", "SQUOTE", "ID"):
             self.adv()
             return v
@@ -551,7 +560,10 @@ class Reader(object):
                 self.need("RPAREN", "syntax:unbalanced")
                 return ("call", v, tuple(args))
             return ("id", v)
-        if t in ("REAL", "INTEGER"):
+        if t == "INTEGER":
+            self.adv()
+            return ("const", str(cxx_integer(v)))
+        if t == "REAL":
             self.adv()
             return ("const", v)
         if t == "LPAREN":
